@@ -200,6 +200,8 @@ def run(idx, rep, tier):
                 okd = equal(t, sym(a), hyp)
                 rep.decide(okd, "decomposition-operand", f"{construct}:{backend}#{n_dec}", f"xnp.{backend} is applied to {tshow(tnorm(t, hyp))}; required {a}" + (" (under H(A) = A)" if hyp else "") +
                            (f" [outside the grammar: {opaque_text(tnorm(t))}]" if okd is None else ""), detail="" if okd else "operand", locs=[idx.loc(fi.module, c)])
+        if sorted(rule.types[0]) == ["Triangular"]:
+            triangular_orientation(idx, rep, rule)
         rets = [r for r in df.returns(fi.node) if r.value is not None and isinstance(r.value, ast.Tuple) and len(r.value.elts) == 2]
         if not rets:
             rep.undecided("spectrum-order", construct, "rule does not return a (values, vectors) pair")
@@ -295,3 +297,105 @@ def run(idx, rep, tier):
                        "ascending algebraic, eig -> unordered, x[argsort(x)] -> ascending algebraic, x[argsort(abs(x))] -> ascending magnitude. Pairing: an argsort index applied to the "
                        "values must be applied to the vector columns (`[:, idx]`), and values / vectors are cut by the same slice.")
     rep.assumptions += ["that returned pairs satisfy A v = lambda v, convergence and linear independence are numerical and not decided"]
+
+
+# ------------------------------------------------------------------------------------------------
+def helper_orientation(h):
+    """which strict triangle of its (first) matrix parameter a back-substitution helper reads: 'upper' (L[:i, i]: rows above the
+    diagonal of column i), 'lower' (L[i+1:, i] / L[i, :i]), 'both' or None"""
+    if not h.params:
+        return None
+    m = h.params[0]
+    seen = set()
+    for n in df.body_nodes(h.node):
+        if isinstance(n, ast.Subscript) and isinstance(n.value, ast.Name) and n.value.id == m and isinstance(n.slice, ast.Tuple) and len(n.slice.elts) == 2:
+            r, c = n.slice.elts
+            if isinstance(r, ast.Slice) and isinstance(c, ast.Name):
+                # rows [:i] of column i -> above the diagonal ; rows [i+1:] / [i:] of column i -> below
+                if r.lower is None and r.upper is not None and nospace(r.upper) == c.id:
+                    seen.add("upper")
+                elif r.upper is None and r.lower is not None and c.id in nospace(r.lower):
+                    seen.add("lower")
+            elif isinstance(c, ast.Slice) and isinstance(r, ast.Name):
+                if c.lower is None and c.upper is not None and nospace(c.upper) == r.id:
+                    seen.add("lower")
+                elif c.upper is None and c.lower is not None and r.id in nospace(c.lower):
+                    seen.add("upper")
+    if seen == {"upper"}:
+        return "upper"
+    if seen == {"lower"}:
+        return "lower"
+    return "both" if seen else None
+
+
+def triangular_orientation(idx, rep, rule):
+    """eig(Triangular): the eigenvectors of an upper- and of a lower-triangular matrix are obtained by different back-substitutions
+    (zeros below resp. above the pivot), and transposing does not convert one problem into the other.  A helper that reads one
+    strict triangle only is correct for that orientation only, so the payload it receives must have it: the rule has to consult
+    the operator's `lower` flag and must not hand lower-triangular data (A.A under lower=True, or A.A.T under lower=False) to an
+    upper-only helper (or vice versa)."""
+    fi = rule.func
+    a = rule.params[0][0]
+    asg = df.assignments(fi.node)
+
+    def data_orient(e, flag):
+        """orientation of expression e when A.lower == flag: 'lower' / 'upper' / None"""
+        t = nospace(e)
+        if isinstance(e, ast.Call) and e.args and nospace(e.func) in ("np.array", "np.asarray", "numpy.array", "numpy.asarray"):
+            return data_orient(e.args[0], flag)
+        if t == f"{a}.A":
+            return "lower" if flag else "upper"
+        if isinstance(e, ast.Attribute) and e.attr == "T":
+            o = data_orient(e.value, flag)
+            return {"lower": "upper", "upper": "lower"}.get(o)
+        if isinstance(e, ast.IfExp):
+            tt = nospace(e.test)
+            if tt == f"{a}.lower":
+                return data_orient(e.body if flag else e.orelse, flag)
+            if tt in (f"not{a}.lower", f"(not{a}.lower)"):
+                return data_orient(e.orelse if flag else e.body, flag)
+            return None
+        if isinstance(e, ast.Name):
+            vals = [v for v, p, st in asg.get(e.id, []) if p is None and not isinstance(v, ast.AugAssign)]
+            if len(vals) == 1:
+                return data_orient(vals[0], flag)
+        return None
+
+    n = 0
+    for c in df.calls(fi.node):
+        r = idx.resolve_expr(fi.module, c.func, fi)
+        if r is None or r.kind != "funcs" or getattr(r.val[-1], "rule", None) is not None or not c.args:
+            continue
+        h = r.val[-1]
+        need = helper_orientation(h)
+        if need not in ("upper", "lower"):
+            continue
+        n += 1
+        loc = [idx.loc(fi.module, c), idx.loc(h.module, h.node)]
+        # enclosing statement-level guards on A.lower
+        flags = [True, False]
+        for p_ in parents_of(c, fi.node):
+            if isinstance(p_, ast.If) and nospace(p_.test) in (f"{a}.lower", f"not{a}.lower"):
+                pos = nospace(p_.test) == f"{a}.lower"
+                inside_body = any(x is c for st in p_.body for x in ast.walk(st))
+                flags = [pos if inside_body else not pos]
+        bad = [(fl, data_orient(c.args[0], fl)) for fl in flags]
+        wrong = [fl for fl, o in bad if o is not None and o != need]
+        unknown = [fl for fl, o in bad if o is None]
+        construct = f"{rule.role}:{h.short}"
+        if wrong:
+            rep.refuted("triangle-orientation", construct, f"`{h.short}` reads the strict {need} triangle of its argument only, but `{nospace(c.args[0])}` is {('lower' if need == 'upper' else 'upper')}-triangular "
+                        f"when {a}.lower is {' / '.join(str(w) for w in wrong)}: the helper then sees a diagonal matrix and returns unit vectors, which are not eigenvectors of {a}",
+                        detail="lower=" + ",".join(str(w) for w in wrong), locs=loc)
+        elif unknown:
+            rep.undecided("triangle-orientation", construct, f"orientation of `{nospace(c.args[0])}` not derivable", locs=loc)
+        else:
+            rep.proved("triangle-orientation", construct, f"`{h.short}` ({need}-triangular back-substitution) receives {need}-triangular data for every value of {a}.lower it is reached with", locs=loc)
+    return n
+
+
+def parents_of(node, stop):
+    p = getattr(node, "_parent", None)
+    while p is not None and p is not stop:
+        yield p
+        p = getattr(p, "_parent", None)
